@@ -84,6 +84,12 @@ def main():
             # demo with the patch
             rc, out = sh("git apply %s/demo.diff" % src, wt)
             if rc != 0:
+                # the demonstration was written against an older HEAD (e.g. a `mod` line next to a hook that
+                # was added since): retry with fuzz
+                sh("git checkout -- . && git clean -fdq -e target", wt)
+                sh("git apply %s/patch.diff" % src, wt)
+                rc, out = sh("patch -p1 --fuzz=3 --no-backup-if-mismatch < %s/demo.diff" % src, wt)
+            if rc != 0:
                 r["why"] = "demo.diff does not apply: " + out[-300:]
                 results[k] = r
                 continue
